@@ -60,7 +60,7 @@ def standalone(F, fn):
     by the path builder and judged there, with the guards / popped state / bounds its callers establish."""
     from .symx import known_functions
     b = F.hir.get(fn)
-    return fn in known_functions() or b is None or b.get("is_async") or b.get("kind") not in ("Fn", "AssocFn")
+    return fn in known_functions() or b is None or b.get("kind") not in ("Fn", "AssocFn")
 
 
 def cone(g, roots):
@@ -564,7 +564,7 @@ def r_norec(run, F, g, parse_cone, rule="R-NOREC"):
 FINITE_ITERS = ("core::slice::Iter", "std::slice::Iter", "std::iter::Enumerate", "std::collections::btree_map::Iter", "std::collections::hash_map::Values",
                 "std::collections::hash_map::Iter", "std::vec::IntoIter", "std::iter::StepBy<std::ops::Range", "std::ops::Range<", "std::iter::Filter<",
                 "std::collections::btree_map::Values", "std::iter::Map<", "std::iter::FilterMap<", "std::collections::btree_map::IntoIter", "&[", "[&", "&std::vec::Vec<",
-                "&std::collections::", "std::vec::Vec<", "std::iter::Skip<", "std::iter::Zip<", "std::iter::Rev<", "std::iter::Take<", "&&[", "ipp::value::IppValueIterator")
+                "&std::collections::", "std::vec::Vec<", "std::iter::Skip<", "std::iter::Zip<", "std::iter::Rev<", "std::iter::Take<", "&&[", "ipp::value::IppValueIterator", "std::iter::Chain<")
 
 
 def r_loop(run, F, g, bodies, inspect_cone, rule="R-LOOP"):
@@ -587,7 +587,7 @@ def r_loop(run, F, g, bodies, inspect_cone, rule="R-LOOP"):
                     continue
                 n_other += 1
                 is_drive = path.endswith("::parse_header_attributes")
-                run.ob(rule, "%s: loop is the input drive loop" % path.split("::", 2)[-1], is_drive and n.get("src") == "Loop",
+                run.ob(rule, "%s: loop is the input drive loop" % path.split("::", 2)[-1], is_drive and n.get("src") in ("Loop", "While"),     # (that every iteration consumes a tag byte is R-LOOP's no-progress clause on the loop's paths)
                        "a `%s` loop in the parse/inspect cone is not classified (every loop must consume input or iterate a finite container)" % n.get("src"), site(body, n),
                        key="%s|%s|unclassified-loop" % (rule, path))
     # recursion in the inspect cone must be structural
